@@ -137,7 +137,7 @@ def run(tier, seed, mutant=None, only_validate=False):
                 cfgs.append({"kind": shape, "cons": cons, "max_elems": ne})
             if shape in ("direct", "map", "filter"):
                 # the library's own sink around a plain function that hands back the awaitable of an asynchronous writer
-                for cons in (["sinkfn"], ["sinkfn_first_none"], ["sync", "sinkfn_first_none", "future"]):
+                for cons in (["sinkfn"], ["sinkfn_first_none"], ["sync", "sinkfn_first_none", "future"], ["sinkfn_handle"], ["sinkfn_handle", "coro"]):
                     cfgs.append({"kind": shape, "cons": cons, "max_elems": ne})
                 # consumers whose awaitable raises
                 for cons in (["future"], ["sinkfn"], ["coro", "future"]):
